@@ -98,7 +98,7 @@ def qr_cases(draw, tier):
                 if idx[i, j] < 8:
                     A[i, j] = gen.BASIS_UNITS[int(idx[i, j])]
     else:
-        A = draw(gen.qarray(m, n, "generic"))[0] * 10.0 ** draw(st.sampled_from([-16, -12, -9, -4, 4, 9, 12]))
+        A = draw(gen.qarray(m, n, "generic"))[0] * 10.0 ** draw(st.sampled_from([-16, -12, -9, -4, 4, 9, 12, -200, -170, 160, 200]))
     return {"A": np.ascontiguousarray(A), "kind": kind}
 
 
@@ -153,6 +153,13 @@ def check_qr(case):
         return out
     if not out.true("qr_qua:finite", np.all(np.isfinite(Qf)) and np.all(np.isfinite(Rf)), "non-finite factor"):
         return out
+    amax = float(np.max(np.abs(A))) if A.size else 0.0
+    if amax > 0 and not (1e-100 <= amax <= 1e100):
+        # far scales: the factors are representable (Q is O(1), R is O(A)); the ORACLE's own sums of squares are not, so
+        # A and R are brought to unit scale by a power of two before they are compared
+        sc = 2.0 ** -int(np.floor(np.log2(amax)))
+        A, Rf = A * sc, Rf * sc
+        out.label("far_scale")
     an = ref.fro(A)
     qdef = ref.unitarity_defect(Qf)
     out.le("qr_qua:Q orthonormal", qdef, C_ORTH * (m + n) * U_)
